@@ -7,7 +7,7 @@ import ast
 from ..consteval import fold_module_name
 from ..core import Ctx, RuleResult, finding, short
 from ..model import AnalysisError, norm
-from ..rules import exc, truthy, sib
+from ..rules import exc, nullflow, truthy, sib
 from ..tables import C18_BOUNDARY_OK, C18_INFEASIBLE, C18_SIB_EXCEPTIONS
 
 EXPLANATION = (
@@ -191,6 +191,10 @@ def run(ctx: Ctx):
             p, "C18.5", [f"{COMMON}.AttrSpec.__set_foreground", f"{COMMON}.AttrSpec.__set_background"], r"^_parse_color_|^index$|^_true_to_256$", floor=2,
             description="colour numbers (0 is a colour) returned by the parsers are distinguished from None by identity, never by truthiness",
         ),
+        nullflow.run_nullflow(
+            p, "C18.6", COMMON, [f"{COMMON}._true_to_256", f"{COMMON}.AttrSpec.__set_foreground", f"{COMMON}.AttrSpec.__set_background", f"{COMMON}._parse_color_256", f"{COMMON}._parse_color_88", f"{COMMON}._parse_color_true"],
+            floor=5, description="results of the colour parsers (None = not recognised) are tested against None before they are used as numbers",
+        ),
     ]
     return out
 
@@ -204,6 +208,7 @@ MUTANTS = [
     Mut("true-to-256-int-unguarded", _C, "_true_to_256", "    try:\n        c256 = _parse_color_256(\"#\" + \"\".join(format(int(x, 16) // 16, \"x\") for x in (desc[1:3], desc[3:5], desc[5:7])))\n    except ValueError:\n        return None", "    c256 = _parse_color_256(\"#\" + \"\".join(format(int(x, 16) // 16, \"x\") for x in (desc[1:3], desc[3:5], desc[5:7])))", "EXC|"),
     Mut("hash-ignores-value", _C, "AttrSpec.__hash__", "return hash((self.__class__, self.__value))", "return hash(self.__class__)", "SIB|"),
     Mut("eq-ignores-truecolor-marker", _C, "AttrSpec.__eq__", "return isinstance(other, AttrSpec) and self.__value == other._value", "return isinstance(other, AttrSpec) and (self.__value ^ other._value) & ~_HIGH_TRUE_COLOR == 0", "SIB|"),
+    Mut("true-to-256-none-unchecked", _C, "_true_to_256", "    if c256 is None:\n        return None\n", "", "NULLFLOW|display.common._true_to_256"),
     Mut("foreground-colour-truthiness", _C, "AttrSpec.__set_foreground", "            if color is not None:\n                raise AttrSpecError(f\"More than one color given", "            if color:\n                raise AttrSpecError(f\"More than one color given", "TRUTHY|"),
     Mut("twin-desc-88-bounds-split", _C, "_color_desc_88", "if not 0 <= num < 88:", "if not (0 <= num < 88):", twin=True),
 ]
